@@ -10,9 +10,10 @@
      everywhere ([is_clear]).  Other Python types (int, bool, ...) are outside the model; for
      `private`, `commands.edit` passes `args.private or None`, i.e. Keep or True, and edit_torrent
      only tests membership: any non-empty request sets `info["private"] = 1`.
-   * `str.split()` is modelled on bytes: it splits on runs of the ASCII whitespace bytes
-     9,10,11,12,13,32.  (Python's `str.split()` also splits on 0x1c-0x1f, U+0085, U+00A0 and the
-     other Unicode spaces; a URL list containing those is outside the model.)
+   * `str.split()` is modelled on bytes: it splits on runs of the ASCII bytes for which
+     `str.isspace` holds: 9,10,11,12,13,32 and the separators 28,29,30,31.  (Python's
+     `str.split()` also splits on U+0085, U+00A0 and the other non-ASCII Unicode spaces, which are
+     multi-byte in UTF-8; a URL string containing those is outside the model.)
    * filter_empty iterates `args.items()`; the order is the literal order of the dictionary built
      in `commands.edit`: url-list, httpseeds, announce, source, private, comment.
    * `meta["info"]` that is missing or not a dictionary, and `vallist[0]`/`val[0]` on an empty
@@ -70,7 +71,7 @@ Definition is_set (r : fieldreq) : bool := negb (is_keep r) && negb (is_clear r)
 (* ------------------------------------------------------------------------------------------ *)
 
 Definition is_space (c : ascii) : bool :=
-  let n := nat_of_ascii c in ((9 <=? n) && (n <=? 13)) || (n =? 32).
+  let n := nat_of_ascii c in ((9 <=? n) && (n <=? 13)) || ((28 <=? n) && (n <=? 32)).
 
 (* [cur] is the current word, reversed *)
 Fixpoint split_ws_aux (cur : bytes) (s : bytes) : list bytes :=
